@@ -391,7 +391,7 @@ int main(int argc, char** argv)
           .s("want", r.v_want)
           .sv("unsplit_conversions", unsplit_in)
           .b("attributed_to_unsplit_conversion", attributed && !unsplit_in.empty() && !escaped_before_expanded)
-          .b("attributed_to_escaped_percent_before_TRrX", attributed && escaped_before_expanded && unsplit_in.empty())
+          .b("attributed_to_escaped_percent_before_TRrX", attributed && escaped_before_expanded)
           .emit();
       }
       ++viols;
